@@ -192,3 +192,50 @@ func H_C09_Truncated() {
 		vCover("c09.trunc.intact")
 	}
 }
+
+func init() {
+	vRegister("H_C09_JoinMutual", H_C09_JoinMutual)
+}
+
+// C09 mutual join over a real full-duplex stream: when the joiner's push/pull returns nil it lists the host and
+// every member the host reported alive; the host lists the joiner as soon as its handler finishes; no further
+// messages are needed. Under every encryption / label / compression setting.
+func H_C09_JoinMutual() {
+	c := vPickNetCfg()
+	ca, cb := vBaseConfig(), vBaseConfig()
+	ca.Name, cb.Name = vPeerA, vSelf
+	c.apply(ca)
+	c.apply(cb)
+	fa, fb := vNewML(ca), vNewML(cb)
+	fa.vAddSelfNamed(vPeerA) // joiner: knows only itself (10.0.0.2)
+	fb.vAddSelf(3, nil)      // host 10.0.0.1 ...
+	third := fb.vAddConcreteAlive(vPeerB, 3) // ... which also knows a third live member
+	third.PMin, third.PMax, third.PCur = 1, 5, ca.ProtocolVersion
+	fb.m.nodeMap[vSelf].PCur = cb.ProtocolVersion
+	if vPick(2) == 1 {
+		// a member the host believes dead must not be adopted as a live member by the joiner
+		d := fb.vAddConcreteAlive("n3", 4)
+		d.State = StateDead
+		d.PMin, d.PMax, d.PCur = 1, 5, ca.ProtocolVersion
+	}
+	ea, eb := vNewDuplex()
+	fa.tr.conn = ea
+	hostDone := false
+	go func() { fb.m.handleConn(eb); hostDone = true }()
+
+	err := fa.m.pushPullNode(Address{Addr: "10.0.0.1:7946", Name: vSelf}, true)
+
+	vAssert(err == nil, "c09.join.succeeds")
+	if err != nil {
+		return
+	}
+	vAssert(fa.vIsMember(vSelf), "c09.join.joiner-lists-host")
+	vAssert(fa.vIsMember(vPeerB), "c09.join.joiner-lists-reported-alive")
+	vAssert(!fa.vIsMember("n3"), "c09.join.joiner-does-not-list-reported-dead")
+	vYield()
+	vAssert(hostDone, "c09.join.host-handler-finished")
+	vAssert(fb.vIsMember(vPeerA), "c09.join.host-lists-joiner")
+	vAssert(ea.closed >= 1 && eb.closed >= 1, "c09.join.both-ends-closed")
+	vAssert(len(fa.tr.packets) == 0 && len(fb.tr.packets) == 0, "c09.join.no-further-messages-needed")
+	vCover("c09.join")
+}
